@@ -56,7 +56,7 @@ pub fn tins_strategy() -> impl Strategy<Value = TIns> {
     let dim = || [-2i8..3, -2i8..3, -1i8..2];
     prop_oneof![
         8 => (dim(), 0u8..8, any::<u32>(), 0u8..3).prop_map(|(dim, half, seed, annotate)| TIns::Let { dim, half, seed, annotate }),
-        3 => (0u8..5, any::<u32>()).prop_map(|(kind, seed)| TIns::Generic { kind, seed }),
+        3 => (0u8..8, any::<u32>()).prop_map(|(kind, seed)| TIns::Generic { kind, seed }),
         3 => (dim(), any::<u32>()).prop_map(|(dim, seed)| TIns::Func { dim, seed }),
         2 => (dim(), any::<u32>()).prop_map(|(dim, seed)| TIns::Struct { dim, seed }),
         2 => (dim(), any::<u32>()).prop_map(|(dim, seed)| TIns::List { dim, seed }),
@@ -482,7 +482,27 @@ impl<'a> Gen<'a> {
     fn call_generic(&mut self, name: &str, kind: u8, v: &DimVec, r: &mut Rng, depth: u32) -> Option<String> {
         self.features.generic_instantiations += 1;
         let d = depth.saturating_sub(1);
-        Some(match kind % 5 {
+        Some(match kind % 8 {
+            // inferred: f(x, y) = x + y * 2  (two parameters that must have the same dimension:
+            // the second argument is an equality site)
+            7 => {
+                let a = self.expr_inner(v, r, d);
+                let b = self.expr_inner(v, r, d);
+                let b = self.site(b);
+                format!("{name}({a}, {b})")
+            }
+            // f<D>(a: D, t) = a / t  (an annotated parameter followed by an inferred one)
+            5 => {
+                let d2 = self.random_vec(r);
+                let d1 = v.mul(&d2);
+                format!("{name}({}, {})", self.expr_inner(&d1, r, d), self.expr_inner(&d2, r, d))
+            }
+            // f(a: Length, t, k: Scalar) = a * k / t  (an inferred parameter between annotated ones)
+            6 => {
+                let len = DimVec::single("Length");
+                let d2 = len.div(v);
+                format!("{name}({}, {}, {})", self.expr_inner(&len, r, d), self.expr_inner(&d2, r, d), self.expr_inner(&DimVec::scalar(), r, d))
+            }
             // f<D>(x: D) -> D
             0 => format!("{name}({})", self.expr_inner(v, r, d)),
             // f<D>(x: D) -> D^2
@@ -545,7 +565,10 @@ impl<'a> Gen<'a> {
             }
             TIns::Generic { kind, seed } => {
                 let name = self.fresh("gf");
-                let text = match kind % 5 {
+                let text = match kind % 8 {
+                    7 => format!("fn {name}(x, y) = x + y * 2"),
+                    5 => format!("fn {name}<D: Dim>(a: D, t) = a / t"),
+                    6 => format!("fn {name}(a: Length, t, k: Scalar) = a * k / t"),
                     0 => format!("fn {name}<D: Dim>(x: D) -> D = x * 2 + x"),
                     1 => format!("fn {name}<D: Dim>(x: D) -> D^2 = x * x"),
                     2 => format!("fn {name}<A: Dim, B: Dim>(a: A, b: B) -> A * B = a * b"),
